@@ -210,7 +210,9 @@ def run(original_args) -> int:
             original_args,
             context.compile_results(codemods_to_run),
         )
-        codetf.write_report(argv.output)
+        # `write_report` returns 2 when the report file could not be written
+        if codetf.write_report(argv.output) == 2:
+            return 2
 
     log_report(
         context,
